@@ -23,8 +23,7 @@
       driver (`asciiFns`), opaque in the proofs;
     * scalar fields are `Integer` fields; `Set[...]` is treated like `Array[...]` (the harness compares
       sets order-insensitively).
-  Out of the model (documented limits of C07): FunctionCall / Constant mapper values, Map values,
-  `_deserialization_mapper`, multiple inheritance.
+  Out of the model (documented limits of C07): FunctionCall / Constant mapper values, Map values.
 -/
 namespace Typedpy.Mappers
 
@@ -209,16 +208,46 @@ inductive Shape where
   | many
 deriving DecidableEq, Repr, Inhabited
 
-/-- a field of a class; a nested class is inlined with its own (MRO-collected) mapper list -/
+def isEnumMapper : Mapper → Bool
+  | .dict _ => false
+  | _ => true
+
+/-- the class-level attributes the (de)serializer reads besides the fields -/
+structure CInfo where
+  /-- `get_aggregated_serialization_mapper()`: the MRO-collected `_serialization_mapper` list -/
+  ser : List Mapper
+  /-- `get_aggregated_deserialization_mapper()` when some class of the MRO defines
+      `_deserialization_mapper` (otherwise it is the serialization list) -/
+  des : Option (List Mapper) := none
+  /-- the class's own `__dict__` sets `_additional_properties = False` -/
+  closedOwn : Bool := false
+  /-- `getattr(cls, "_additional_properties")` is `False` (own or inherited) -/
+  closedAny : Bool := false
+  /-- the identity of the class object (the process-wide mapper cache is keyed by it) -/
+  cid : String := ""
+deriving Repr, Inhabited
+
+def CInfo.desL (ci : CInfo) : List Mapper := ci.des.getD ci.ser
+
+/-- the mapper list of the class for one direction -/
+def CInfo.lst (ci : CInfo) (forSer : Bool) : List Mapper := if forSer then ci.ser else ci.desL
+
+/-- a field of a class; a nested class is inlined with its class-level attributes -/
 inductive Fld where
   | scalar (name : String) (opt : Bool)
-  | nested (name : String) (opt : Bool) (shape : Shape) (own : List Mapper) (fields : List Fld)
+  | nested (name : String) (opt : Bool) (shape : Shape) (ci : CInfo) (fields : List Fld)
 deriving Repr, Inhabited
 
 structure Cls where
   own : List Mapper
   fields : List Fld
+  des : Option (List Mapper) := none
+  closedOwn : Bool := false
+  closedAny : Bool := false
+  cid : String := ""
 deriving Repr, Inhabited
+
+def Cls.desL (c : Cls) : List Mapper := c.des.getD c.own
 
 def Fld.name : Fld → String
   | .scalar n _ => n
@@ -237,8 +266,8 @@ def baseFields (S : StrFns) (forSer : Bool) : List Fld → MDict
 termination_by structural fs => fs
 def baseFld (S : StrFns) (forSer : Bool) : Fld → MDict
   | .scalar n _ => [(.fld n, .key n)]
-  | .nested n _ _ own fs =>
-    [(.nest n, .sub (foldAdd S forSer own (baseFields S forSer fs))), (.fld n, .key n)]
+  | .nested n _ _ ci fs =>
+    [(.nest n, .sub (foldAdd S forSer (ci.lst forSer) (baseFields S forSer fs))), (.fld n, .key n)]
 termination_by structural f => f
 end
 
@@ -269,6 +298,40 @@ def cachedAggregate (S : StrFns) (cache : Cache) (cid ovKey : String) (own : Lis
   | none =>
     (aggregate S true own fields ov camel,
      cache ++ [((cid, ovKey, camel), aggregate S true own fields ov camel)])
+
+mutual
+/-- `_set_base_mapper_no_op(cls, for_serialization=True)` as executed: every nested class's own
+    aggregate is asked from `aggregate_serialization_mappers(nested_cls)` — answered from the cache if
+    filed there, else computed (recursively, filling the cache) and filed under `(nested_cls, "", False)` -/
+def cBaseFields (S : StrFns) : Cache → List Fld → MDict × Cache
+  | cache, [] => ([], cache)
+  | cache, f :: rest =>
+    let r1 := cBaseFld S cache f
+    let r2 := cBaseFields S r1.2 rest
+    (r1.1 ++ r2.1, r2.2)
+termination_by structural _ fs => fs
+def cBaseFld (S : StrFns) : Cache → Fld → MDict × Cache
+  | cache, .scalar n _ => ([(.fld n, .key n)], cache)
+  | cache, .nested n _ _ ci fs =>
+    match lookupR (ci.cid, "", false) cache with
+    | some m => ([(.nest n, .sub m), (.fld n, .key n)], cache)
+    | none =>
+      let b := cBaseFields S cache fs
+      let m := foldAdd S true ci.ser b.1
+      ([(.nest n, .sub m), (.fld n, .key n)], b.2 ++ [((ci.cid, "", false), m)])
+termination_by structural _ f => f
+end
+
+/-- `aggregate_serialization_mappers(cls, override, camel_case_convert)` as executed, the entries filed
+    for nested classes while building the base mapper included -/
+def cAggregate (S : StrFns) (cache : Cache) (me ovKey : String) (own : List Mapper)
+    (fields : List Fld) (ov : Option MDict) (camel : Bool) : MDict × Cache :=
+  match lookupR (me, ovKey, camel) cache with
+  | some m => (m, cache)
+  | none =>
+    let b := cBaseFields S cache fields
+    let m := foldAdd S true (effList own ov camel) b.1
+    (m, b.2 ++ [((me, ovKey, camel), m)])
 
 /-- one class's `_serialization_mapper` attribute -/
 inductive ClassAttr where
@@ -439,32 +502,65 @@ def dNested (n : String) (opt : Bool) (shape : Shape) (inp : DR J) (g : J → DR
         | .arr xs => bindD (mapD g xs) fun ys => bindD rest fun r => .ok ((n, .arr ys) :: r)
         | _ => .error .valueErr
 
-/-- the object case of `deserialize_structure_internal` -/
+/-- the object case of `deserialize_structure_internal` (no undefined keys kept) -/
 def dObj (doc : J) (k : List (String × J) → DR (List (String × J))) : DR J :=
   match doc with
   | .obj kvs => bindD (k kvs) fun r => .ok (.obj r)
   | _ => .error .typeErr
 
+/-- `keep_undefined` as adjusted inside `deserialize_structure_internal`: switched off by an enum
+    mapper among the class's own (collected) mappers and by `camel_case_convert` (for a class that
+    does not set `_additional_properties = True` explicitly) -/
+def kuNext (ku camel : Bool) (desL : List Mapper) : Bool := ku && !(desL.any isEnumMapper) && !camel
+
+/-- the undefined keys handed to the constructor: keys of the document that are not field names, when
+    `keep_undefined` is on and the class's own `__dict__` does not forbid additional properties -/
+def extrasOf (ku closedOwn : Bool) (names : List String) (kvs : List (String × J)) : List (String × J) :=
+  if ku && !closedOwn then kvs.filter (fun p => !names.contains p.1) else []
+
+/-- `cls(**kwargs)`: an undefined key is refused by a class that (by inheritance) forbids additional
+    properties, and kept as an extra attribute otherwise -/
+def construct (closedAny : Bool) (extras flds : List (String × J)) : DR J :=
+  if extras.isEmpty then .ok (.obj flds)
+  else if closedAny then .error .valueErr else .ok (.obj (flds ++ extras))
+
+/-- the object case of `deserialize_structure_internal` with undefined keys -/
+def dObjK (doc : J) (closedAny : Bool) (ex : List (String × J) → List (String × J))
+    (k : List (String × J) → DR (List (String × J))) : DR J :=
+  match doc with
+  | .obj kvs => bindD (k kvs) fun r => construct closedAny (ex kvs) r
+  | _ => .error .typeErr
+
 mutual
-/-- `construct_fields_map` followed by `cls(**kwargs)` over the remaining fields -/
-def deserFields (S : StrFns) (camel : Bool) (M : MDict) (strict : Bool) (kvs : List (String × J)) :
+/-- `construct_fields_map` followed by `cls(**kwargs)` over the remaining fields; `ku` is the adjusted
+    `keep_undefined` of this level, handed down to nested classes -/
+def deserFields (S : StrFns) (camel ku : Bool) (M : MDict) (strict : Bool) (kvs : List (String × J)) :
     List Fld → DR (List (String × J))
   | [] => .ok []
-  | f :: rest => deserFld S camel M strict kvs f (deserFields S camel M strict kvs rest)
+  | f :: rest => deserFld S camel ku M strict kvs f (deserFields S camel ku M strict kvs rest)
 termination_by structural fs => fs
-def deserFld (S : StrFns) (camel : Bool) (M : MDict) (strict : Bool) (kvs : List (String × J)) :
+def deserFld (S : StrFns) (camel ku : Bool) (M : MDict) (strict : Bool) (kvs : List (String × J)) :
     Fld → DR (List (String × J)) → DR (List (String × J))
   | .scalar n opt, rest => dScalar n opt (procInput S M strict kvs n) rest
-  | .nested n opt shape own fs, rest =>
+  | .nested n opt shape ci fs, rest =>
     dNested n opt shape (procInput S M strict kvs n)
-      (fun y => dObj y fun kvs' =>
-        deserFields S camel (aggregate S false own fs (subDeser M n) camel) false kvs' fs) rest
+      (fun y => dObjK y ci.closedAny
+        (extrasOf (kuNext ku camel ci.desL) ci.closedOwn (fs.map Fld.name)) fun kvs' =>
+        deserFields S camel (kuNext ku camel ci.desL)
+          (aggregate S false ci.desL fs (subDeser M n) camel) false kvs' fs) rest
 termination_by structural f => f
 end
 
-/-- `deserialize_structure_internal(cls, doc, mapper=ov, camel_case_convert, use_strict_mapping)` -/
+/-- `deserialize_structure_internal(cls, doc, mapper=ov, camel_case_convert, use_strict_mapping,
+    keep_undefined=ku)` -/
+def deserK (S : StrFns) (camel ku : Bool) (c : Cls) (ov : Option MDict) (strict : Bool) (doc : J) : DR J :=
+  dObjK doc c.closedAny (extrasOf (kuNext ku camel c.desL) c.closedOwn (c.fields.map Fld.name)) fun kvs =>
+    deserFields S camel (kuNext ku camel c.desL) (aggregate S false c.desL c.fields ov camel) strict kvs c.fields
+
+/-- the same with `keep_undefined=False` (what `Deserializer(cls).deserialize` passes for a class that
+    allows additional properties) -/
 def deser (S : StrFns) (camel : Bool) (c : Cls) (ov : Option MDict) (strict : Bool) (doc : J) : DR J :=
-  dObj doc fun kvs => deserFields S camel (aggregate S false c.own c.fields ov camel) strict kvs c.fields
+  deserK S camel false c ov strict doc
 
 /-- top-level serialization: `serialize(x, mapper=ov, camel_case_convert=camel)` -/
 def serialize (S : StrFns) (camel : Bool) (c : Cls) (ov : Option MDict) (x : J) : J :=
